@@ -1,6 +1,7 @@
 package main
 
 import (
+	"fmt"
 	"go/ast"
 
 	"promverif/eng"
@@ -156,6 +157,50 @@ func runC15(c *eng.Ctx) {
 		// replay: samples / tombstones / exemplars for a ref that is no longer in the head extend its expiry
 		lw := c.Fn("tsdb:Head.loadWAL")
 		lw.Has("R4", p.Call("tsdb:Head.updateWALExpiry").InClosures(), 5)
+		// sibling rule over the record arms of the replay loop: wherever a record's ref is remapped
+		// through multiRef (`if r, ok := multiRef[K]; ok {…}`), the duplicate series record's expiry is
+		// extended for that very K in the same arm — except in the arms that carry no timestamp.
+		{
+			noTS := map[string]string{
+				"m.Ref": "metadata records carry no timestamp; the series record is kept by the samples",
+				"ref":   "full-deletion tombstone of a stale series: the series is removed, nothing to keep",
+			}
+			exp := p.Call("tsdb:Head.updateWALExpiry")
+			n, nEx := 0, 0
+			ast.Inspect(lw.Body, func(x ast.Node) bool {
+				is, ok := x.(*ast.IfStmt)
+				if !ok || is.Init == nil {
+					return true
+				}
+				as, ok := is.Init.(*ast.AssignStmt)
+				if !ok || len(as.Rhs) != 1 {
+					return true
+				}
+				ix, ok := as.Rhs[0].(*ast.IndexExpr)
+				if !ok || eng.ExprString(ix.X) != "multiRef" {
+					return true
+				}
+				k := eng.ExprString(ix.Index)
+				if _, ex := noTS[k]; ex {
+					nEx++
+					return true
+				}
+				n++
+				found := false
+				ast.Inspect(is.Body, func(y ast.Node) bool {
+					if call, ok := y.(*ast.CallExpr); ok && exp.F(lw.Graph, call, eng.Plain) && len(call.Args) == 2 && eng.ExprString(call.Args[0]) == k {
+						if _, isSel := call.Args[1].(*ast.SelectorExpr); isSel {
+							found = true
+						}
+					}
+					return true
+				})
+				c.Check("R4", "tsdb:Head.loadWAL", "remap of "+k+" through multiRef extends the WAL expiry of that ref in the same arm (arm at "+p.Pos(is.Pos())+")", found, p.Pos(is.Pos()),
+					"the arm that remaps "+k+" to the live series does not call updateWALExpiry("+k+", <timestamp of the same record element>): the duplicate series record can be dropped by a checkpoint that keeps the sample")
+				return true
+			})
+			c.Check("R4", "tsdb:Head.loadWAL", "multiRef remap arms: ≥5 with a timestamp, 2 declared without", n >= 5 && nEx == 2, p.Pos(lw.Body.Pos()), fmt.Sprintf("found %d with timestamp, %d declared exceptions", n, nEx))
+		}
 	}
 	// ---- R5 agent ----
 	{
